@@ -257,18 +257,94 @@ func rulesRepl(c *Ctx) {
 	sort.Slice(tstates, func(i, j int) bool { return tstates[i] < tstates[j] })
 	for _, s := range tstates {
 		name := tt.states[s]
-		cons := "tasks#" + name + "-absorbing"
 		at := terminal[s]
+		consJ := "tasks#" + name + "-after-rejected-join"
+		consF := "tasks#" + name + "-after-failed-fetch"
 		if !blocked[s] {
-			c.ok("Q1", cons, at.Pos(), "state "+name+" does not block re-queuing")
+			c.ok("Q1", consJ, at.Pos(), "state "+name+" does not block re-queuing")
+			c.ok("Q1", consF, at.Pos(), "state "+name+" does not block re-queuing")
 			continue
 		}
-		// an outgoing transition: a delete reachable from the load-end function or from the worker's failure path
-		if len(deletes) == 0 {
-			c.bad("Q1", cons, at.Pos(), fmt.Sprintf("state %s is reached whether or not the fetch succeeded, blocks AddHashToQueue/AddEntryToQueue forever (the lookup ignores the state) and has no outgoing transition: no delete on the task table exists. A hash whose fetch was cancelled/failed, or whose log was rejected at join, is never fetched again, even when honestly re-announced", name))
-			continue
+		// (i) failed / cancelled fetch: in the worker, the failing branch of the processing step
+		// must reach a removal of the task entry before the worker returns
+		doneFn := at.Parent()
+		checkedF := false
+		for _, w := range fns {
+			callsDeq := false
+			eachCall(w, func(call ssa.CallInstruction) {
+				for _, d := range dequeueFns {
+					if call.Common().StaticCallee() == d {
+						callsDeq = true
+					}
+				}
+			})
+			if !callsDeq {
+				continue
+			}
+			eachCall(w, func(call ssa.CallInstruction) {
+				g := call.Common().StaticCallee()
+				if g == nil || g.Pkg != w.Pkg || checkedF {
+					return
+				}
+				isDeq := false
+				for _, d := range dequeueFns {
+					if d == g {
+						isDeq = true
+					}
+				}
+				if isDeq || g == doneFn {
+					return
+				}
+				ev := errResult(call)
+				if ev == nil {
+					return
+				}
+				// the processing step: a same-package call with an error result made before the terminal assignment
+				reachesDone := false
+				if h, _ := findPath(w, after(call), nil, func(in ssa.Instruction) bool {
+					cl, ok := in.(ssa.CallInstruction)
+					return ok && cl.Common().StaticCallee() == doneFn
+				}, nil); h != nil {
+					reachesDone = true
+				}
+				if !reachesDone {
+					return
+				}
+				checkedF = true
+				ts := errTests(ev)
+				cleanup := func(in ssa.Instruction) bool {
+					cl, ok := in.(ssa.CallInstruction)
+					if !ok {
+						return false
+					}
+					if b, ok := cl.Common().Value.(*ssa.Builtin); ok && b.Name() == "delete" && tt.isTable(cl.Common().Args[0]) {
+						return true
+					}
+					if h := cl.Common().StaticCallee(); h != nil && h.Pkg == w.Pkg {
+						return c.reachesTaskDelete(tt, h, 0, map[*ssa.Function]bool{})
+					}
+					return false
+				}
+				if len(ts) == 0 {
+					c.bad("Q1", consF, call.Pos(), fmt.Sprintf("the outcome of the fetch step is not distinguished: state %s is assigned whether or not the fetch succeeded, and it blocks AddHashToQueue/AddEntryToQueue forever (the lookup ignores the state). A hash whose fetch was cancelled or failed is never fetched again, even when announced again", name))
+					return
+				}
+				for _, t := range ts {
+					if len(t.Fail.Preds) != 1 {
+						continue
+					}
+					if hit, tr := findPath(w, atBlock(t.Fail), cleanup, func(in ssa.Instruction) bool { _, ok := in.(*ssa.Return); return ok }, nil); hit != nil {
+						c.bad("Q1", consF, hit.Pos(), fmt.Sprintf("when the fetch step fails (cancelled request, fetch error) the worker still ends by assigning state %s and nothing removes the entry: that state blocks AddHashToQueue/AddEntryToQueue forever (the lookup ignores the state), so the hash is never fetched again, even when announced again", name), c.trailStr(tr)...)
+						return
+					}
+				}
+				c.ok("Q1", consF, call.Pos(), "a failed fetch step reaches the removal of the task entry before the worker returns")
+			})
 		}
-		// the delete must be reachable from the function that fires load-end (emits EventLoadEnd) unconditionally w.r.t. the buffer
+		if !checkedF {
+			c.undecided("Q1", consF, at.Pos(), "the worker's fetch step was not identified")
+		}
+		// (ii) log rejected at join: the entry must be collected at load-end (whatever the buffer holds)
 		okDel := false
 		for _, f := range fns {
 			emitsEnd := false
@@ -277,16 +353,9 @@ func rulesRepl(c *Ctx) {
 					emitsEnd = true
 				}
 			})
-			if !emitsEnd {
+			if !emitsEnd || !c.reachesTaskDelete(tt, f, 0, map[*ssa.Function]bool{}) {
 				continue
 			}
-			// every path entry→return of the load-end function passes a delete site, or a loop containing one
-			hasDel := c.reachesTaskDelete(tt, f, 0, map[*ssa.Function]bool{})
-			if !hasDel {
-				continue
-			}
-			// the collection must not be conditional on "something was fetched": the block holding the
-			// delete loop must not be dominated by the branch that guards the emission
 			condOnBuffer := false
 			eachInstr(f, func(in ssa.Instruction) {
 				call, ok := in.(*ssa.Call)
@@ -295,10 +364,7 @@ func rulesRepl(c *Ctx) {
 				}
 				if b, ok := call.Call.Value.(*ssa.Builtin); ok && b.Name() == "delete" && tt.isTable(call.Call.Args[0]) {
 					for _, ft := range factsAt(call.Block()) {
-						if ft.Y == nil {
-							continue
-						}
-						if lc, ok := ft.X.(*ssa.Call); ok {
+						if lc, ok := ft.X.(*ssa.Call); ok && ft.Y != nil {
 							if bi, ok := lc.Call.Value.(*ssa.Builtin); ok && bi.Name() == "len" && strings.Contains(nf(lc.Call.Args[0]), "buffer") {
 								condOnBuffer = true
 							}
@@ -306,18 +372,22 @@ func rulesRepl(c *Ctx) {
 					}
 				}
 			})
-			if condOnBuffer {
-				c.bad("Q1", cons, at.Pos(), "terminal task entries are collected only when the fetched-log buffer is non-empty: when every fetch of a load failed or was cancelled, the entries stay and block re-queuing forever")
-				okDel = true // reported
-				break
-			}
 			okDel = true
-			c.ok("Q1", cons, at.Pos(), "terminal task entries are collected at load-end, so a later announcement is fetched again unless the entry is in the log")
+			if condOnBuffer {
+				c.bad("Q1", consJ, at.Pos(), "terminal task entries are collected only when the fetched-log buffer is non-empty")
+			} else {
+				c.ok("Q1", consJ, at.Pos(), "terminal task entries are collected at load-end, so a hash whose log was rejected is fetched again when announced again")
+			}
 			break
 		}
 		if !okDel {
-			// a delete exists elsewhere (e.g. on the failure path)
-			c.ok("Q1", cons, at.Pos(), "the task table has an outgoing transition (delete) for terminal entries")
+			// without collection the state is absorbing. That is harmless exactly as long as a
+			// rejected log cannot contain a valid entry, i.e. while every fetch asks for one entry.
+			if n, where, ok := c.fetchBatchSize(fns); ok && n == 1 {
+				c.ok("Q1", consJ, at.Pos(), fmt.Sprintf("state %s is never collected, but every fetch asks for exactly one entry (%s): a log rejected at join holds only the rejected entry, so no valid entry is left blocked behind it", name, where))
+				continue
+			}
+			c.bad("Q1", consJ, at.Pos(), fmt.Sprintf("a hash that was fetched stays in state %s forever (no removal at load-end, and the store has no way to report a rejected join back), and that state blocks AddHashToQueue/AddEntryToQueue: when the log holding it is rejected at join — for instance because it arrived in the same batch as a forged entry — the hash is never fetched again, even when honestly re-announced", name))
 		}
 	}
 	c.floor("Q1", "terminal task states", len(tstates), 1)
@@ -607,4 +677,65 @@ func (c *Ctx) ruleL2(fns []*ssa.Function) {
 		}
 	}
 	c.floor("L2", "fetch steps (NewFromEntryHash in the replicator)", n, 1)
+}
+
+// fetchBatchSize resolves the FetchOptions.Length handed to NewFromEntryHash in the
+// replicator: the address of a package variable initialised to a constant and never
+// reassigned, or of a local holding a constant.
+func (c *Ctx) fetchBatchSize(fns []*ssa.Function) (int64, string, bool) {
+	var res int64
+	where := ""
+	found, okAll := false, true
+	for _, f := range fns {
+		eachCall(f, func(call ssa.CallInstruction) {
+			if calleeFull(call) != logMod+".NewFromEntryHash" {
+				return
+			}
+			for _, a := range call.Common().Args {
+				p, ok := a.Type().(*types.Pointer)
+				if !ok || !strings.HasSuffix(typeStr(p.Elem()), "FetchOptions") {
+					continue
+				}
+				l, ok := structLitFields(a)["Length"]
+				if !ok {
+					okAll = false
+					return
+				}
+				g, ok := l.(*ssa.Global)
+				if !ok {
+					okAll = false
+					return
+				}
+				// initial value and other writers
+				var initVal *int64
+				writers := 0
+				for _, fn := range append(append([]*ssa.Function{}, c.RepoFns...), g.Pkg.Func("init")) {
+					if fn == nil {
+						continue
+					}
+					eachInstr(fn, func(in ssa.Instruction) {
+						st, ok := in.(*ssa.Store)
+						if !ok || st.Addr != ssa.Value(g) {
+							return
+						}
+						if fn.Name() == "init" && fn.Parent() == nil {
+							if k, ok := constInt(st.Val); ok {
+								initVal = &k
+								return
+							}
+						}
+						writers++
+					})
+				}
+				if initVal == nil || writers > 0 {
+					okAll = false
+					return
+				}
+				found = true
+				res = *initVal
+				where = "Length: &" + g.Name() + ", a package variable initialised to " + fmt.Sprint(*initVal) + " and never reassigned"
+			}
+		})
+	}
+	return res, where, found && okAll
 }
